@@ -475,6 +475,88 @@ class Real:
         assert any(n.op_type == "Identity" and n.inputs[0].name == "upd" for n in m.graph)
         return "T"
 
+    def _vi(self, name, dt, shp):
+        from onnx import helper
+
+        if shp is None:
+            return helper.make_value_info(name, helper.make_tensor_type_proto(dt, None))
+        return helper.make_tensor_value_info(name, dt, list(shp))
+
+    def rule_scatter_static(self, red, dshape, ushape, idx_rows):
+        """red: None (attribute absent) | 'none' | 'add'; idx_rows: None (not a constant) | list of rows."""
+        from onnx import TensorProto, helper, numpy_helper
+
+        from onnxscript.rewriter.rules.common import _redundant_scatter_nd as rsn
+
+        inputs = [self._vi("data", TensorProto.FLOAT, dshape), self._vi("upd", TensorProto.FLOAT, ushape)]
+        inits = []
+        if idx_rows is None:
+            inputs.append(self._vi("idx", TensorProto.INT64, [None, 1]))
+        else:
+            arr = np.array(idx_rows, dtype=np.int64).reshape(len(idx_rows), len(idx_rows[0]) if idx_rows else 1)
+            inits.append(numpy_helper.from_array(arr, "idx"))
+        attrs = {} if red is None else {"reduction": red}
+        g = helper.make_graph([helper.make_node("ScatterND", ["data", "idx", "upd"], ["out"], **attrs)], "g", inputs,
+                              [self._vi("out", TensorProto.FLOAT, None)], initializer=inits)
+        m = self.ir.from_proto(helper.make_model(g, opset_imports=[helper.make_opsetid("", 18)], ir_version=8))
+        cnt = self.RewriteRuleSet([rsn.no_op_static_scatter_nd_rule]).apply_to_model(m)
+        if cnt == 0:
+            return "F"
+        assert [n.op_type for n in m.graph] == ["Identity"] and list(m.graph)[0].inputs[0].name == "upd"
+        return "T"
+
+    def rule_collapse_slice(self, which, start, stop, axis, step, dshape, oshape):
+        """start/stop/axis/step: None (graph input, not constant) | list of ints (constant). which: 1 | 2."""
+        from onnx import TensorProto, helper, numpy_helper
+
+        from onnxscript.rewriter.rules.common import _collapse_slices as cs
+
+        inputs = [self._vi("data", TensorProto.FLOAT, dshape)]
+        inits = []
+        for name, v in (("st", start), ("en", stop), ("ax", axis), ("sp", step)):
+            if v is None:
+                inputs.append(self._vi(name, TensorProto.INT64, [None]))
+            else:
+                inits.append(numpy_helper.from_array(np.array(v, dtype=np.int64), name))
+        g = helper.make_graph([helper.make_node("Slice", ["data", "st", "en", "ax", "sp"], ["out"])], "g", inputs,
+                              [self._vi("out", TensorProto.FLOAT, oshape)], initializer=inits)
+        m = self.ir.from_proto(helper.make_model(g, opset_imports=[helper.make_opsetid("", 18)], ir_version=8))
+        rule = cs.collapse_slice_rule if which == 1 else cs.collapse_slice2_rule
+        cnt = self.RewriteRuleSet([rule]).apply_to_model(m)
+        if cnt == 0:
+            return "F"
+        assert [n.op_type for n in m.graph] == ["Identity"] and list(m.graph)[0].inputs[0].name == "data"
+        return "T"
+
+    def rule_squeeze_reshape(self, xshape):
+        from onnx import TensorProto, helper, numpy_helper
+
+        inits = [numpy_helper.from_array(np.array([-1], dtype=np.int64), "m1")]
+        nodes = [helper.make_node("Squeeze", ["x"], ["sq"]), helper.make_node("Reshape", ["sq", "m1"], ["out"])]
+        g = helper.make_graph(nodes, "g", [self._vi("x", TensorProto.INT64, xshape)], [self._vi("out", TensorProto.INT64, None)], initializer=inits)
+        m = self.ir.from_proto(helper.make_model(g, opset_imports=[helper.make_opsetid("", 18)], ir_version=8))
+        cnt = self.RewriteRuleSet([self.br.squeeze_reshape_1d_rule]).apply_to_model(m)
+        if cnt == 0:
+            return "F"
+        assert any(n.op_type == "Identity" and n.inputs[0].name == "x" for n in m.graph)
+        return "T"
+
+    def get_shape_value(self, kind, is_i64, ndim, vals, sym):
+        cf, ir = self.cf, self.ir
+        state = cf.OptimizerState()
+        if kind == "c":
+            arr = np.array(vals, dtype=np.int64 if is_i64 else np.int32)
+            if ndim == 0:
+                arr = arr.reshape(())
+            elif ndim == 2:
+                arr = arr.reshape(1, -1)
+            v = self.value(const=arr)
+        else:
+            v = self.value(shape=[None], dtype=ir.DataType.INT64)
+        if sym is not None:
+            state.set_sym_value(v, ir.Shape(list(sym)))
+        return enc_ir_shape(state.get_shape_value(v))
+
     # ---- rules (through real rule application on a one-node model)
     def _model(self, inputs, node_op, node_inputs, attrs, out_shape, out_dtype=None):
         import onnx
